@@ -321,7 +321,13 @@ func judge(s spec, e *vsched.Exec, o *obs) vx.Verdict {
 			}
 		}
 	}
-	for it, n := range mapped {
+	var items []string
+	for it := range mapped {
+		items = append(items, it)
+	}
+	sort.Strings(items)
+	for _, it := range items {
+		n := mapped[it]
 		if n > 1 {
 			return vx.Verdict{Class: "mapped-twice", Msg: fmt.Sprintf("item %s handed to the mapper %d times", it, n)}
 		}
